@@ -378,7 +378,7 @@ func init() {
 	compile := func(e *Exec, fn *ssa.Function, args []value) value {
 		e.compileCalls++
 		in := args[2].(iface)
-		rd := e.prog.LookupMethod(in.t, nil, "String")
+		rd := e.lookupMethodOrNil(in.t, "String")
 		if rd == nil {
 			panic(inconclusive{"compiler input without a String method"})
 		}
